@@ -1,0 +1,5 @@
+//go:build !verif
+
+package cgroup
+
+func verifNextRandom() (string, bool) { return "", false }
